@@ -11,3 +11,4 @@ PROPERTY AbsSafe
 PROPERTY AbsTermination
 PROPERTY ImplTermination
 CHECK_DEADLOCK FALSE
+VIEW IView
